@@ -76,6 +76,12 @@ class World:
         self.registry = []      # every probe object ever made (one reference each)
         self.nfresh = 0
         self.base_nodes = 0
+        # stored mode (C17): every clone is committed to a mini-ZODB connection and swept from its cache just
+        # before the fault driver is armed, so the probe starts on ghosts and the allocations made while nodes
+        # are loaded *inside* the operation are part of the enumerated fault space
+        self.stored = bool(cfg.get('stored'))
+        self.conn = None
+        self.stored_fallback = 0
 
     def K(self, n, fresh=False):
         if not self.okey:
@@ -139,7 +145,36 @@ class World:
             return [(self.kn(k), self.vtok(v)) for k, v in t.items()]
         return [(self.kn(k), None) for k in t.keys()]
 
-    def build(self, ops):
+    def build(self, ops, plain=False):
+        t = self._build(ops)
+        if self.stored and not plain:
+            from . import minizodb as Z
+            self.conn = None
+            c = Z.Connection(Z.Storage())
+            c.add(t)
+            c.commit()
+            c.minimize()
+            ok = True
+            if self.is_tree:
+                try:
+                    t._check()
+                    wk = walker.walk(t, self.is_map)
+                    del wk
+                except (AssertionError, walker.WalkError):
+                    ok = False      # open finding F16: this shape does not survive commit + reload
+            if ok:
+                self.conn = c
+            else:
+                self.stored_fallback += 1
+                del c
+                t = self._build(ops)
+        return t
+
+    def sweep(self):
+        if self.conn is not None:
+            self.conn.minimize()
+
+    def _build(self, ops):
         t = self.klass()
         for op in ops:
             if op[0] == 'set':
@@ -396,7 +431,7 @@ def _plan(w, t, op, model):
         def call():
             copy.copy(t)
     elif name == 'setstate':
-        src = w.build(w.current_build)       # a second clone: its nodes become the new container's
+        src = w.build(w.current_build, plain=True)       # a second clone: its nodes become the new container's
         state = src.__getstate__()
         del src
         x = w.klass()
@@ -456,7 +491,8 @@ def _run_probe(w, build, op, n, ctx, desc, fault):
     """Build a clone, run the probe with the n-th fault injected (n = 0: count only).
     Returns (faults counted, outcome class, state)."""
     name = op[0]
-    sig = {'impl': w.impl, 'kind': w.kind, 'op': name, 'valcode': w.fam[1], 'fault': fault.name}
+    sig = {'impl': w.impl, 'kind': w.kind, 'op': name, 'valcode': w.fam[1], 'fault': fault.name,
+           'stored': w.conn is not None}
     nodes0 = w.base_nodes
     t = w.build(build)
     w.current_build = build
@@ -464,6 +500,7 @@ def _run_probe(w, build, op, n, ctx, desc, fault):
     plan = _plan(w, t, op, model)
     outcome = None
     err = None
+    w.sweep()
     fault.arm(n)
     try:
         plan.call()
@@ -508,8 +545,8 @@ def _run_probe(w, build, op, n, ctx, desc, fault):
                 wk = walker.walk(o, om)
                 del wk
             except (AssertionError, walker.WalkError) as e:
-                ctx.mismatch('%s: container not sound afterwards: %s' % (desc, e), dict(sig, what='unsound'),
-                             recoverable=False)
+                ctx.mismatch('%s: container not sound afterwards: %s' % (desc, e),
+                             dict(sig, what='unsound', detail=_unsound_detail(e, outcome)), recoverable=False)
     # ---- contents: previous, or the completed change
     target = t
     if plan.newobj is not None:
@@ -566,6 +603,14 @@ def _run_probe(w, build, op, n, ctx, desc, fault):
                 ctx.count('observed:node_objects_leaked_without_user_objects:' + name, nodes1 - nodes0)
                 w.base_nodes = nodes1
     return count, outcome, state
+
+
+def _unsound_detail(e, outcome):
+    """coarse class of a soundness failure, for the known-findings signatures"""
+    msg = str(e)
+    if outcome == 'boom' and ('Bucket length < 1' in msg or 'next pointer is damaged' in msg or 'firstbucket' in msg):
+        return 'unlink-incomplete'      # an emptied bucket is still in the chain / in its parent
+    return 'other'
 
 
 def _judge(w, name, plan, before, now, outcome):
@@ -665,7 +710,7 @@ def _followup(w, t, now, ctx, desc, sig):
 def run_case(case, ctx, fault_cls=CmpFault, audit_refs=True):
     cfg = case['cfg']
     w = World(cfg)
-    w.audit_refs = audit_refs and w.impl == 'c'
+    w.audit_refs = audit_refs and w.impl == 'c' and not w.stored      # loaded keys are new objects
     fault = fault_cls(w)
     P.Hook.reset()
     P.arm(False)
@@ -705,6 +750,11 @@ def run_case(case, ctx, fault_cls=CmpFault, audit_refs=True):
                 bump('inj:%s:%s:%s' % (op[0], where, state if outcome == 'boom' else outcome))
                 if (op[0] in MUTATING or n >= 2) and size >= 2:
                     nnt += 1
+    if w.stored:
+        classes.append('stored')
+        if w.stored_fallback:
+            classes.append('stored:fell_back_to_plain(F16 shape)')
+    w.conn = None
     if first_time:
         ctx.ok_bulk(ninj, nnt, cls, sample=case if nnt else None)
     else:
